@@ -25,6 +25,7 @@ TRule     == IsEvent("rule") /\ RuleRunCore(Ev.q, Ev.r, Ev.tag)
 TReturn   == IsEvent("req_end") /\ ReturnCore(Ev.q, Ev.err, Ev.vals, Ev.cv)
 TPush     == IsEvent("push") /\ PushCore(Ev.i)
 TQuiesce  == IsEvent("quiesce") /\ QuiesceCore
+TFrozen   == IsEvent("frozen") /\ FrozenCore(Ev.q, Ev.same)
 TUpdBegin == IsEvent("upd_begin") /\ UpdBeginCore(Ev.kind, Ev.rules, Ev.names)
 TPublish  == IsEvent("publish") /\ PublishCore
 TIncrMid  == IsEvent("incr_mid") /\ IncrMidCore
@@ -33,7 +34,7 @@ TSetModel == IsEvent("setmodel") /\ SetModelCore(Ev.m, Ev.ok)
 TQuery    == IsEvent("query") /\ QueryCore(Ev.kind, Ev.arg, Ev.res, Ev.err)
 
 TraceProper == TSession \/ TNew \/ TArrive \/ TPop \/ TSpin \/ TPeek \/ TRule \/ TReturn \/ TPush
-               \/ TQuiesce \/ TUpdBegin \/ TPublish \/ TIncrMid \/ TUpdEnd \/ TSetModel \/ TQuery
+               \/ TQuiesce \/ TFrozen \/ TUpdBegin \/ TPublish \/ TIncrMid \/ TUpdEnd \/ TSetModel \/ TQuery
 
 NextSession(i) ==
   IF \E j \in (i+1)..Len(Trace) : Trace[j].ev = "session"
